@@ -1,4 +1,5 @@
 import EpdVerif.Ctrl.Uc
+import EpdVerif.SimpAttr
 /-!
 # Vocabulary shared by the driver models
 
@@ -61,5 +62,7 @@ def dataEach (bs : Bytes) : List Act := bs.map (fun b => Act.data [b])
 /-- colour byte values: `Color::get_byte_value` (Black 0x00, White 0xFF), TriColor the same
     with Chromatic 0x00 -/
 def byteValue (c : Nat) : UInt8 := if c = 1 then 0xFF else 0x00
+
+attribute [driver_simp] cmdData assertA shr8 dataEach byteValue
 
 end EpdVerif
